@@ -570,7 +570,8 @@ def main(argv):
             'complete_finite_domain': kinfo.get('complete', []),
             'samples': [{'obligation': o['id'], 'unit': o.get('unit'), 'function': short_fn(o['fn']), 'clause': o['text']}
                         for o in (all_obs[:6] + all_obs[len(all_obs) // 2: len(all_obs) // 2 + 3])] +
-                       [{'obligation': o['id'], 'harness': o.get('harness'), 'what': o.get('text')} for o in kob[:6]],
+                       [{'obligation': o['id'], 'harness': o.get('harness'), 'what': o.get('text')} for o in kob[:6]] +
+                       [{'bounded_harness': b.get('harness'), 'obligation': b.get('obligation'), 'bound': b.get('bound'), 'result': b.get('result')} for b in kinfo.get('bounded', [])[:6]],
             'failed': sorted(list(failed) + list(kfailed)),
             'canaries_checked': sum(len(r.get('canaries', {})) for r in cruns),
             'units': [r['unit'] for r in runs],
